@@ -216,7 +216,12 @@ def classify(f, ctx):
     world = D.build_world(case["world"])
     tags = make_tags(case, world)
     exp = expected(case, world, tags)
-    r = KF.attribute(f, lambda caching: run(case, world, caching, tags=tags)[0][0], exp, mentioned_not_selected=False,
+    def fresh_run(caching):
+        # the counterfactual runs start from a cleared registry: the world and the tags have to be created again
+        w = D.build_world(case["world"])
+        return run(case, w, caching, tags=make_tags(case, w))[0][0]
+
+    r = KF.attribute(f, fresh_run, exp, mentioned_not_selected=False,
                      compare=_missing_only)
     return r if r == "K05" else None
 
